@@ -85,6 +85,20 @@ inductive Err where
 def takeN (n : Nat) (bs : Bytes) : Except Err (Bytes × Bytes) :=
   if bs.length < n then .error .eof else .ok (bs.take n, bs.drop n)
 
+/-- the same test without walking the whole rest of the input (what the compiled oracle runs) -/
+def takeNFast (n : Nat) (bs : Bytes) : Except Err (Bytes × Bytes) :=
+  let w := bs.take n
+  if w.length < n then .error .eof else .ok (w, bs.drop n)
+
+@[csimp] theorem takeN_eq_fast : @takeN = @takeNFast := by
+  funext n bs
+  simp only [takeN, takeNFast, List.length_take]
+  by_cases h : bs.length < n
+  · have : min n bs.length < n := by omega
+    simp [h, this]
+  · have : ¬ min n bs.length < n := by omega
+    simp [h, this]
+
 /-- a `k`-byte little-endian unsigned number -/
 def getU (k : Nat) (bs : Bytes) : Except Err (Nat × Bytes) :=
   match takeN k bs with
@@ -94,6 +108,18 @@ def getU (k : Nat) (bs : Bytes) : Except Err (Nat × Bytes) :=
 /-- an `int64` count of items that take at least `item` bytes each, accepted by `checkCount`:
     not negative, and not more than the rest of the input can hold.  Only a count that passed this test is
     ever handed to `make`. -/
+def atLeast (k : Nat) (l : Bytes) : Bool :=
+  match k with
+  | 0 => true
+  | k + 1 => !(l.drop k).isEmpty
+
+theorem atLeast_iff (k : Nat) (l : Bytes) : atLeast k l = true ↔ k ≤ l.length := by
+  cases k with
+  | zero => simp [atLeast]
+  | succ k =>
+    simp only [atLeast, Bool.not_eq_true', List.isEmpty_eq_false_iff, ne_eq, List.drop_eq_nil_iff, Nat.not_le]
+    omega
+
 def getSize (item : Nat) (bs : Bytes) : Except Err (Nat × Bytes) :=
   match getU 8 bs with
   | .error e => .error e
@@ -101,6 +127,44 @@ def getSize (item : Nat) (bs : Bytes) : Except Err (Nat × Bytes) :=
     if u ≥ 2 ^ 63 then .error .badSize                    -- negative int64
     else if u > r.length / item then .error .eof
     else .ok (u, r)
+
+/-- `getSize` without computing the length of the rest of the input (what the compiled oracle runs) -/
+def getSizeFast (item : Nat) (bs : Bytes) : Except Err (Nat × Bytes) :=
+  match getU 8 bs with
+  | .error e => .error e
+  | .ok (u, r) =>
+    if u ≥ 2 ^ 63 then .error .badSize
+    else if item = 0 then (if u > 0 then .error .eof else .ok (u, r))
+    else if !atLeast (u * item) r then .error .eof
+    else .ok (u, r)
+
+@[csimp] theorem getSize_eq_fast : @getSize = @getSizeFast := by
+  funext item bs
+  simp only [getSize, getSizeFast]
+  cases getU 8 bs with
+  | error e => rfl
+  | ok p =>
+    obtain ⟨u, r⟩ := p
+    simp only
+    by_cases h1 : u ≥ 2 ^ 63
+    · simp [h1]
+    · simp only [h1, if_false]
+      by_cases h0 : item = 0
+      · subst h0; simp
+      · simp only [h0, if_false]
+        have hpos : 0 < item := by omega
+        have hiff : (u > r.length / item) ↔ ¬ (u * item ≤ r.length) := by
+          rw [Nat.not_le, gt_iff_lt, Nat.div_lt_iff_lt_mul hpos]
+        by_cases h2 : u * item ≤ r.length
+        · have : atLeast (u * item) r = true := (atLeast_iff _ _).mpr h2
+          have h3 : ¬ (u > r.length / item) := by rw [hiff]; simpa using h2
+          simp [this, h3]
+        · have : atLeast (u * item) r = false := by
+            cases hh : atLeast (u * item) r with
+            | false => rfl
+            | true => exact absurd ((atLeast_iff _ _).mp hh) h2
+          have h3 : u > r.length / item := by rw [hiff]; exact h2
+          simp [this, h3]
 
 /-- `readString`: the length (checked against the rest of the input), then exactly that many bytes -/
 def getStr (bs : Bytes) : Except Err (Bytes × Bytes) :=
